@@ -203,6 +203,12 @@ def focused(tier):
                                     c={"slotted": {"slots": [1.0, 2.0, 3.0], "sizes": [1, 2, 1], "capacitated": False, "preempt": False}},
                                     nodekw={"discipline": disc}, features=["slotted", "priorities", disc]))
     out += ageing_priorities(tier)
+    import copy as _copy
+    for c in sched_preempt_classchange_block(tier):     # re-classed customers that are un-blocked and served again
+        c = _copy.deepcopy(c)
+        for n in c["nodes"]:
+            n["discipline"] = "FIFO"
+        out.append(c)
     return out
 
 
